@@ -768,6 +768,7 @@ func genBody(r *RNG, o genOpts) (body []string, hasEqu, hasGlobal bool) {
 	if len(globals) > 1 && r.Chance(1, 5) {
 		globals = append(globals, globals[0]) // duplicate declaration
 	}
+	declaredGlobals := append([]string(nil), globals...)
 	for len(globals) > 0 {
 		k := r.Range(1, 5)
 		if k > len(globals) {
@@ -777,8 +778,27 @@ func genBody(r *RNG, o genOpts) (body []string, hasEqu, hasGlobal bool) {
 		globals = globals[k:]
 		hasGlobal = true
 	}
+	var externs []string
 	for i := 0; i < o.Extern; i++ {
-		body = append(body, "\tEXTERN\t"+g.newName()+"_ext")
+		externs = append(externs, g.newName()+"_ext")
+	}
+	if len(externs) > 0 && r.Chance(1, 2) {
+		// irregular but tolerated declarations: a name both GLOBAL and EXTERN, an EXTERN repeated
+		if len(declaredGlobals) > 0 {
+			at := r.Intn(len(externs) + 1)
+			externs = append(externs[:at:at], append([]string{pick(r, declaredGlobals)}, externs[at:]...)...)
+		}
+		if r.Chance(1, 2) {
+			externs = append([]string{externs[len(externs)-1]}, externs...)
+		}
+	}
+	for len(externs) > 0 { // several names per statement
+		k := r.Range(1, 4)
+		if k > len(externs) {
+			k = len(externs)
+		}
+		body = append(body, "\tEXTERN\t"+strings.Join(externs[:k], ", "))
+		externs = externs[k:]
 	}
 	if o.Coff {
 		body = append(body, "[SECTION .text]")
